@@ -126,7 +126,11 @@ ElemAttributeSet::startElement(StylesheetExecutionContext& executionContext) con
 {
     ElemUse::startElement(executionContext);
 
-    executionContext.pushCurrentStackFrameIndex(executionContext.getGlobalStackFrameIndex());
+    // Only top-level variables and parameters are visible in an
+    // attribute set, so hide the bindings of the instruction that
+    // uses it.  A context marker does that, and still lets the
+    // xsl:attribute children declare variables of their own.
+    executionContext.pushContextMarker();
     executionContext.pushOnElementRecursionStack(this);
 
     return getFirstChildElemToExecute(executionContext);
@@ -138,7 +142,7 @@ void
 ElemAttributeSet::endElement(StylesheetExecutionContext& executionContext) const
 {
     executionContext.popElementRecursionStack();
-    executionContext.popCurrentStackFrameIndex();
+    executionContext.popContextMarker();
 
     ElemUse::endElement(executionContext);
 }
